@@ -287,3 +287,52 @@ def _do_pop(l):
 _list_detach('ListSetItemDetach', '__setitem__', lambda b: dict(value=b.int('value')), _replay_list(_do_setitem))
 _list_detach('ListDelItemDetach', '__delitem__', lambda b: {}, _replay_list(_do_delitem))
 _list_detach('ListPopDetach', 'pop', lambda b: {}, _replay_list(_do_pop))
+
+
+# ---------------------------------------------------------------------------
+# Dict write primitive: replace / delete detaches the old child.  The symbolic
+# setup (payload writes, formalization, parent bookkeeping as events) is the one
+# of the C03 contract on the same function.
+
+from contracts import c03_schema as _c03   # noqa: E402  pylint: disable=wrong-import-position
+
+
+@register
+class DictPrimitiveDetach(_c03.DictStore):
+  """Dict._set_item_without_permission_check: whenever the C-level dict is
+  written (an entry replaced, or deleted by assigning MISSING_VALUE), a
+  symbolic node that was stored under the key is detached: it receives
+  sym_setparent(None) and its path is reset."""
+  prop = 'C01'
+  name = 'Dict._set_item_without_permission_check/detach'
+  trace_only_formalized_values_are_stored = None
+  trace_rejected_write_changes_nothing = None
+
+  def trace_removed_child_is_detached(self, events, outcome, interp, env):
+    if outcome[0] != 'return':
+      return True
+    if not [e for e in events if e.kind == 'payload-write']:
+      return True
+    old = interp.resolve(self._old)
+    if not isinstance(old, SObj):
+      return True
+    det = [e for e in events if e.kind == 'setparent' and e.data[0] is old and e.data[1] is None]
+    detached = len(det) == 1 and len([e for e in events if e.kind == 'setpath']) >= 1
+    # not required when the value stored now is that very node again
+    fz = [e for e in events if e.kind == 'formalize']
+    if fz and not detached:
+      same = interp.truth_z(interp.identical(old, fz[0].data[1]))
+      return same
+    return detached
+
+  def replay(self, obligation, m):
+    bad = []
+    for how, op in (('del d[k]', lambda d: d.__delitem__('n')), ('d[k] = 5', lambda d: d.__setitem__('n', 5)),
+                    ('d.rebind({k: MISSING_VALUE})', lambda d: d.rebind({'n': pg.MISSING_VALUE})),
+                    ('d.pop(k)', lambda d: d.pop('n'))):
+      d = pg.Dict(n=pg.Dict(x=1), z=1)
+      child = d.n
+      op(d)
+      if child.sym_parent is not None or str(child.sym_path) != '':
+        bad.append(f'{how}: removed node still has parent={child.sym_parent is not None}, path={str(child.sym_path)!r}')
+    return dict(outcome='reproduced' if bad else 'not-reproduced', detail='; '.join(bad) or 'removed nodes are detached')
